@@ -37,7 +37,7 @@ def check(ctx):
 
     # the entry mapping: `cache_entry = cache[self]`; local names are read off the code (renaming a local is neutral)
     global CE
-    ces = ctx.sites(call, "$CE = $C[self]")
+    ces = ctx.sites(call, "$CE = $C[self]") + ctx.sites(call, "$CE = $C.get(self)") + ctx.sites(call, "$CE = $C.get(self, None)")
     ces = [e for e in ces if isinstance(e[1]["CE"], ast.Name)]
     if not ces:
         raise AnalysisError("R20: the per-wrapper entry mapping (`x = cache[self]`) is no longer bound in __call__ (anchor vanished)")
